@@ -90,12 +90,13 @@ def run(ctx):
     d = ctx.get_driver()
     L = 5 if ctx.quick else 7
     # ---- correspondence 1: encoder, exhaustive short strings + random ----------
-    def one(s):
+    def one(s, with_model=True):
         p = text.P()
         teletype.addTextToElement(p, s)
         impl = canon_children(p)
-        model = d.call('tt_encode', sx_str(s))
-        ctx.corr('teletype.addTextToElement', s, model, impl)
+        if with_model:
+            model = d.call('tt_encode', sx_str(s))
+            ctx.corr('teletype.addTextToElement', s, model, impl)
         ctx.bump('len=%d' % min(len(s), 8))
         if nontrivial(s): ctx.nt(s)
         # ---- oracle: the property itself on the real code ----
@@ -105,7 +106,10 @@ def run(ctx):
             ctx.violation('direct-roundtrip', s, got, s, {'chars': sorted(set(s))})
         for c in p.childNodes:
             if c.nodeType == Node.TEXT_NODE and ('\t' in c.data or '\n' in c.data or '  ' in c.data or c.data == ''):
-                ctx.violation('literal-whitespace-in-text-node', s, c.data, 'no TAB/LF/double blank', {})
+                ctx.violation('literal-whitespace-in-text-node', s if len(s) < 300 else {'length': len(s), 'tail': s[-40:]}, c.data[-40:], 'no TAB/LF/double blank', {})
+            # two text nodes side by side read as one: blanks at their seam are two adjacent literal blanks all the same
+            if c.nodeType == Node.TEXT_NODE and c.nextSibling is not None and c.nextSibling.nodeType == Node.TEXT_NODE:
+                ctx.violation('adjacent-text-nodes', s if len(s) < 300 else {'length': len(s), 'tail': s[-40:]}, [c.data[-20:], c.nextSibling.data[:20]], 'one text node between two elements', {})
     for n in range(0, L + 1):
         for tup in itertools.product(ALPHA, repeat=n):
             one(''.join(tup))
@@ -142,7 +146,11 @@ def run(ctx):
         got_ = teletype.extractText(p_); ctx.oracle_cases += 1
         if got_ != ' ' * n + 'z':
             ctx.violation('direct-roundtrip', {'text:s count': n}, len(got_) - 1, n, {'chars': ['long-run']})
-    ctx.exhaustive.append('runs of 100 ... 20000 blanks, line feeds and tabs')
+    # white space at every offset a buffer might end at
+    for off in (63, 64, 255, 256, 1023, 1024, 4095, 4096, 8191, 8192, 16383, 65535):
+        for tail in ('  b', ' \t \n  c', '   '):
+            one('a' * off + tail, with_model=off <= 1024)        # (the long ones: oracle only - the model is the same function of the same string)
+    ctx.exhaustive.append('runs of 100 ... 20000 blanks, line feeds and tabs; white space starting at offsets 63 ... 65535')
     ctx.sample({'string': 'a  b\t c\n', 'children': canon_children_of('a  b\t c\n')})
     # ---- correspondence 2: decoder on arbitrary child trees, appended encoding ---
     for _ in range(600 if ctx.quick else 6000):
